@@ -97,7 +97,7 @@ def supersize(ctx):
             if key == 'pos' and scale:
                 return S.copy()
             raise Opaque('atoms_prop(%r)' % key)
-        me = SymObj(None, {'box': StubBox(V, o), 'atoms_prop': atoms_prop, 'atoms': atoms, 'natoms': 2, 'symbols': ('A', 'B')}, 'self')
+        me = SymObj(ctx.fn(SYS, 'System'), {'box': StubBox(V, o), 'atoms_prop': atoms_prop, 'atoms': atoms, 'natoms': 2, 'symbols': ('A', 'B')}, 'self')       # helper methods of the class resolve; the accessors are the model's
         ev = SymEval(aliases)
         env = {'self': me, 'a_size': sizes[0], 'b_size': sizes[1], 'c_size': sizes[2], 'Box': lambda vects=None, origin=None: StubBox(vects, origin),
                'Atoms': lambda natoms=None: StubAtoms(natoms=int(natoms), view={}), 'System': lambda **kw: StubSystem(**kw)}
@@ -148,7 +148,7 @@ def supersize(ctx):
     # refusals
     for sizes, what in (((0, 1, 1), 'a zero multiplier'), (((1, 2), 1, 1), 'a tuple with positive lower bound'), ((1.5, 1, 1), 'a non-integer multiplier'), (((0, 0), 1, 1), 'an empty range')):
         atoms = StubAtoms(view={'atype': arr([1, 2]), 'pos': symarray('x', (2, 3))})
-        me = SymObj(None, {'box': StubBox(V, o), 'atoms_prop': lambda key=None, **k: S.copy() if key else ['atype', 'pos'], 'atoms': atoms, 'natoms': 2, 'symbols': ('A', 'B')}, 'self')
+        me = SymObj(ctx.fn(SYS, 'System'), {'box': StubBox(V, o), 'atoms_prop': lambda key=None, **k: S.copy() if key else ['atype', 'pos'], 'atoms': atoms, 'natoms': 2, 'symbols': ('A', 'B')}, 'self')
         ev = SymEval(aliases)
         try:
             paths = ev.run_fn(fn, env={'self': me, 'a_size': sizes[0], 'b_size': sizes[1], 'c_size': sizes[2], 'Box': lambda **k: StubBox(k['vects'], k['origin']),
